@@ -15,21 +15,22 @@ open Fundraising.Gen Fundraising.Go
 
 /-! ### the message server only adds the address check -/
 
-theorem tie_MsgServer_PlaceBid (m : PlaceMsgK) (a : Auction) (ae : Bool) (n : Int) (L : List Bid) (ab : Allowed) (e : Bool) :
-    (Gen.MsgServer_PlaceBid m a ae n L ab e).2 =
-      if validAcc m.bidder then (Gen.PlaceBid m a ae n L ab e).2 else (true, []) := by
+theorem tie_MsgServer_PlaceBid (m : PlaceMsgK) (ag : Int → Auction × Bool) (n : Int → Int) (L : Acc → List Bid)
+    (ab : Int → Acc → Allowed × Bool) :
+    (Gen.MsgServer_PlaceBid m ag n L ab).2 =
+      if validAcc m.bidder then (Gen.PlaceBid m ag n L ab).2 else (true, []) := by
   unfold Gen.MsgServer_PlaceBid
   cases h : validAcc m.bidder <;> simp [h] <;> grind
 
-theorem tie_MsgServer_ModifyBid (m : ModifyMsg) (a : Auction) (ae : Bool) (b : Bid) (be : Bool) :
-    (Gen.MsgServer_ModifyBid m a ae b be).2 =
-      if validAcc m.bidder then Gen.ModifyBid m a ae b be else (true, []) := by
+theorem tie_MsgServer_ModifyBid (m : ModifyMsg) (ag : Int → Auction × Bool) (bg : Int → Int → Bid × Bool) :
+    (Gen.MsgServer_ModifyBid m ag bg).2 =
+      if validAcc m.bidder then Gen.ModifyBid m ag bg else (true, []) := by
   unfold Gen.MsgServer_ModifyBid
   cases h : validAcc m.bidder <;> simp [h] <;> grind
 
-theorem tie_MsgServer_CancelAuction (m : CancelMsg) (a : Auction) (ae : Bool) (bal : Addr → Denom → Int) :
-    (Gen.MsgServer_CancelAuction m a ae bal).2 =
-      if validAcc m.signer then Gen.CancelAuction m a ae bal else (true, []) := by
+theorem tie_MsgServer_CancelAuction (m : CancelMsg) (ag : Int → Auction × Bool) (bal : Addr → Denom → Int) :
+    (Gen.MsgServer_CancelAuction m ag bal).2 =
+      if validAcc m.signer then Gen.CancelAuction m ag bal else (true, []) := by
   unfold Gen.MsgServer_CancelAuction
   cases h : validAcc m.signer <;> simp [h] <;> grind
 
@@ -70,13 +71,14 @@ theorem tie_MsgServer_UpdateParams (c : Ctx) (signer : Acc) (p : Params) :
 
 /-- **MsgPlaceBid**, end to end -/
 theorem tie_deliver_place (c : Ctx) (bidder : Acc) (aid : Nat) (t : BidType) (price : Dec) (denom : Denom) (amt : Int)
-    (L : List Bid) (v : AView) (hv : c.s.views[aid]? = some v)
+    (v : AView) (hv : c.s.views[aid]? = some v)
     (hfresh : ∀ x ∈ v.bids, x.id ≠ v.bidSeq + 1)
-    (hL : (L.filter (fun b => decide ((b.auction : Int) = (v.a.id : Int)))) = v.bids.filter (·.bidder == bidder)) :
+    (hL : ((rdBidsByBidder c.s bidder).filter (fun b => decide ((b.auction : Int) = (v.a.id : Int)))) = v.bids.filter (·.bidder == bidder))
+    (hid : v.a.id = aid) :
     deliver c (.place bidder aid (some t) price denom amt) =
       if Gen.MsgPlaceBid_ValidateBasic ⟨bidder, aid, some t, price, denom, amt⟩ then c.fail
-      else Go.runPlan c aid v (Gen.MsgServer_PlaceBid ⟨bidder, aid, t, price, denom, amt⟩ v.a false ((v.bidSeq + 1 : Nat) : Int) L
-          ((lookupAllowed v.allowed bidder).getD default) (lookupAllowed v.allowed bidder).isNone).2 := by
+      else Go.runPlan c aid v (Gen.MsgServer_PlaceBid ⟨bidder, aid, t, price, denom, amt⟩
+          (rdAuction c.s) (rdNextBidId c.s) (rdBidsByBidder c.s) (rdAllowed c.s)).2 := by
   have hvb := tie_ValidateBasic_place ⟨bidder, aid, some t, price, denom, amt⟩
   simp only at hvb
   rw [hvb, tie_MsgServer_PlaceBid]
@@ -87,16 +89,16 @@ theorem tie_deliver_place (c : Ctx) (bidder : Acc) (aid : Nat) (t : BidType) (pr
       simp only [validateBasic, Bool.and_eq_true] at hb
       exact hb.1.1.1.1
     simp only [Bool.not_true, Bool.false_eq_true, if_false, hacc, if_true]
-    rw [← tie_PlaceBid c bidder aid t price denom amt hacc L v hv hfresh hL]
+    rw [← tie_PlaceBid c bidder aid t price denom amt hacc v hv hfresh hL hid]
     simp [Ctx.check, bind, Except.bind]
 
 /-- **MsgModifyBid**, end to end -/
 theorem tie_deliver_modify (c : Ctx) (bidder : Acc) (aid bidId : Nat) (price : Dec) (denom : Denom) (amt : Int)
-    (v : AView) (hv : c.s.views[aid]? = some v) (hpos : ∀ b ∈ v.bids, 0 < b.amt ∧ 0 < b.price) :
+    (v : AView) (hv : c.s.views[aid]? = some v) (hpos : ∀ b ∈ v.bids, 0 < b.amt ∧ 0 < b.price)
+    (hbauc : ∀ b ∈ v.bids, b.auction = v.a.id) :
     deliver c (.modify bidder aid bidId price denom amt) =
       if Gen.MsgModifyBid_ValidateBasic ⟨bidder, aid, bidId, price, denom, amt⟩ then c.fail
-      else Go.runPlan c aid v (Gen.MsgServer_ModifyBid ⟨bidder, aid, bidId, price, denom, amt⟩ v.a false
-        ((v.bids.find? (·.id == bidId)).getD default) (v.bids.find? (·.id == bidId)).isNone).2 := by
+      else Go.runPlan c aid v (Gen.MsgServer_ModifyBid ⟨bidder, aid, bidId, price, denom, amt⟩ (rdAuction c.s) (rdBid c.s)).2 := by
   have hvb := tie_ValidateBasic_modify ⟨bidder, aid, bidId, price, denom, amt⟩
   simp only at hvb
   rw [hvb, tie_MsgServer_ModifyBid]
@@ -107,7 +109,7 @@ theorem tie_deliver_modify (c : Ctx) (bidder : Acc) (aid bidId : Nat) (price : D
       simp only [validateBasic, Bool.and_eq_true] at hb
       exact hb.1.1.1
     simp only [Bool.not_true, Bool.false_eq_true, if_false, hacc, if_true]
-    rw [← tie_ModifyBid c bidder aid bidId price denom amt hacc v hv hpos]
+    rw [← tie_ModifyBid c bidder aid bidId price denom amt hacc v hv hpos hbauc]
     simp [Ctx.check, bind, Except.bind]
 
 /-- **MsgCancelAuction**, end to end -/
@@ -115,7 +117,7 @@ theorem tie_deliver_cancel (c : Ctx) (signer : Acc) (aid : Nat) (v : AView) (hv 
     (hid : v.a.id = aid) :
     deliver c (.cancel signer aid) =
       if Gen.MsgCancelAuction_ValidateBasic ⟨signer, aid⟩ then c.fail
-      else Go.runPlan c aid v (Gen.MsgServer_CancelAuction ⟨signer, aid⟩ v.a false c.s.bank).2 := by
+      else Go.runPlan c aid v (Gen.MsgServer_CancelAuction ⟨signer, aid⟩ (rdAuction c.s) c.s.bank).2 := by
   have hvb := tie_ValidateBasic_cancel ⟨signer, aid⟩
   simp only at hvb
   rw [hvb, tie_MsgServer_CancelAuction]
